@@ -482,7 +482,7 @@ func c16Policy(c *mon.Ctx, ds *dnsScript) {
 	r := c.Rand("policy")
 	ranges := []string{"10.0.0.0/8", "10.1.0.0/16", "10.1.2.0/24", "10.1.2.3/32", "192.168.0.0/16", "127.0.0.0/8", "127.0.0.2/32", "127.0.1.0/24", "0.0.0.0/0", "::/0", "::1/128", "2001:db8::/32", "fe80::/10", "100.64.0.0/10"}
 	garbage := []string{"not-a-cidr", "10.0.0.0", "10.0.0.0/33", "", "300.1.1.1/8"}
-	nCfg := c.Scale(40, 1200)
+	nCfg := c.Scale(40, 40000)
 	for k := 0; k < nCfg; k++ {
 		pick := func() []string {
 			out := []string{}
@@ -528,6 +528,7 @@ func c16Policy(c *mon.Ctx, ds *dnsScript) {
 				want := ref.NetAllowed(ip, allow, deny)
 				got := fclient.VerifIsAllowed(ip, allow, deny)
 				c.Count("policy_decisions")
+				c.Eval()
 				if interesting {
 					c.Nontrivial(cfgName + "|" + a)
 				}
